@@ -184,7 +184,7 @@ pub fn generate(rng: &mut Rng, tier: Tier) -> Plan {
 
 // ------------------------------------------------------------------ system under test
 
-enum Sut {
+pub enum Sut {
     Lin(CurveDF<LinearInterpolator, NamedCal>),
     LogLin(CurveDF<LogLinearInterpolator, NamedCal>),
     LinZero(CurveDF<LinearZeroRateInterpolator, NamedCal>),
@@ -207,7 +207,7 @@ macro_rules! on_df {
 }
 
 impl Sut {
-    fn clone_(&self) -> Sut {
+    pub fn clone_(&self) -> Sut {
         match self {
             Sut::Lin(c) => Sut::Lin(c.clone()),
             Sut::LogLin(c) => Sut::LogLin(c.clone()),
@@ -217,17 +217,74 @@ impl Sut {
             Sut::Py(c) => Sut::Py(c.clone()),
         }
     }
-    fn value(&self, d: &NaiveDateTime) -> Number {
+    pub fn value(&self, d: &NaiveDateTime) -> Number {
         on_df!(self, c => c.interpolated_value(d), p => p.value(*d))
     }
-    fn index_value(&self, d: &NaiveDateTime) -> Result<Number, ()> {
+    pub fn index_value(&self, d: &NaiveDateTime) -> Result<Number, ()> {
         on_df!(self, c => c.index_value(d).map_err(|_| ()), p => p.index_value(*d).map_err(|_| ()))
     }
-    fn set_order(&mut self, o: ADOrder) -> Result<(), ()> {
+    pub fn set_order(&mut self, o: ADOrder) -> Result<(), ()> {
         on_df!(self, c => c.set_ad_order(o).map_err(|_| ()), p => p.set_ad_order(o).map_err(|_| ()))
     }
-    fn ad(&self) -> ADOrder {
+    pub fn ad(&self) -> ADOrder {
         on_df!(self, c => c.ad(), p => p.ad())
+    }
+}
+
+/// Durable representations (used by the restart scenarios).
+impl Sut {
+    pub fn to_json(&self) -> Result<String, String> {
+        use rateslib::json::JSON;
+        on_df!(self, c => c.to_json().map_err(|e| e.to_string()), p => p.to_json_direct())
+    }
+    pub fn to_json_tagged(&self) -> Result<String, String> {
+        use rateslib::json::JSON;
+        on_df!(self, c => c.to_json().map_err(|e| e.to_string()), p => p.to_json_tagged())
+    }
+    pub fn to_bincode(&self) -> Result<Vec<u8>, String> {
+        on_df!(self, c => bincode::serialize(c).map_err(|e| e.to_string()), p => p.to_bincode())
+    }
+    /// Load a curve of the same static type as `self` from JSON text.
+    pub fn load_json(&self, text: &str, tagged: bool) -> Result<Sut, String> {
+        use rateslib::json::JSON;
+        match self {
+            Sut::Lin(_) => CurveDF::from_json(text).map(Sut::Lin).map_err(|e| e.to_string()),
+            Sut::LogLin(_) => CurveDF::from_json(text).map(Sut::LogLin).map_err(|e| e.to_string()),
+            Sut::LinZero(_) => CurveDF::from_json(text).map(Sut::LinZero).map_err(|e| e.to_string()),
+            Sut::FlatF(_) => CurveDF::from_json(text).map(Sut::FlatF).map_err(|e| e.to_string()),
+            Sut::FlatB(_) => CurveDF::from_json(text).map(Sut::FlatB).map_err(|e| e.to_string()),
+            Sut::Py(_) => {
+                if tagged {
+                    match rateslib::verif_hooks::from_tagged_json(text)? {
+                        rateslib::verif_hooks::VerifObj::Curve(c) => Ok(Sut::Py(c)),
+                        _ => Err("tagged JSON of a Curve came back as another type".into()),
+                    }
+                } else {
+                    VerifCurve::from_json_direct(text).map(Sut::Py)
+                }
+            }
+        }
+    }
+    pub fn load_bincode(&self, bytes: &[u8]) -> Result<Sut, String> {
+        match self {
+            Sut::Lin(_) => bincode::deserialize(bytes).map(Sut::Lin).map_err(|e| e.to_string()),
+            Sut::LogLin(_) => bincode::deserialize(bytes).map(Sut::LogLin).map_err(|e| e.to_string()),
+            Sut::LinZero(_) => bincode::deserialize(bytes).map(Sut::LinZero).map_err(|e| e.to_string()),
+            Sut::FlatF(_) => bincode::deserialize(bytes).map(Sut::FlatF).map_err(|e| e.to_string()),
+            Sut::FlatB(_) => bincode::deserialize(bytes).map(Sut::FlatB).map_err(|e| e.to_string()),
+            Sut::Py(_) => VerifCurve::from_bincode(bytes).map(Sut::Py),
+        }
+    }
+    pub fn equal(&self, other: &Sut) -> bool {
+        match (self, other) {
+            (Sut::Lin(a), Sut::Lin(b)) => a == b,
+            (Sut::LogLin(a), Sut::LogLin(b)) => a == b,
+            (Sut::LinZero(a), Sut::LinZero(b)) => a == b,
+            (Sut::FlatF(a), Sut::FlatF(b)) => a == b,
+            (Sut::FlatB(a), Sut::FlatB(b)) => a == b,
+            (Sut::Py(a), Sut::Py(b)) => a.equals(b),
+            _ => false,
+        }
     }
 }
 
@@ -240,7 +297,11 @@ fn uniform_kind(nodes: &[NodeSpec]) -> Option<u8> {
     }
 }
 
-fn build(setup: &Setup) -> Result<Sut, Fail> {
+pub fn build(setup: &Setup) -> Result<Sut, Fail> {
+    build_with_cal(setup, None)
+}
+
+pub fn build_with_cal(setup: &Setup, pycal: Option<CalType>) -> Result<Sut, Fail> {
     let herr = |s: &str| Fail::Harness(HarnessError(s.to_string()));
     if setup.nodes.len() < 2 {
         return Err(herr("curve plan needs at least two nodes"));
@@ -255,9 +316,12 @@ fn build(setup: &Setup) -> Result<Sut, Fail> {
                     n.num.to_number().map_err(|e| herr(&e))?,
                 );
             }
-            let cal = CalType::NamedCal(
-                NamedCal::try_new("all").map_err(|_| herr("NamedCal all refused"))?,
-            );
+            let cal = match pycal {
+                Some(c) => c,
+                None => CalType::NamedCal(
+                    NamedCal::try_new("all").map_err(|_| herr("NamedCal all refused"))?,
+                ),
+            };
             let c = call(P, "Curve::new", || {
                 VerifCurve::new(
                     m,
